@@ -6,7 +6,6 @@ package rules
 // into. Each rule below pins one such order where exchanging the two is a different protocol.
 
 import (
-	"fmt"
 	"go/token"
 	"go/types"
 	"strings"
@@ -109,64 +108,69 @@ func localArrayNeverWritten(a *ssa.Alloc, theCopy *ssa.Call) bool {
 	return true
 }
 
-// resultsInOrder: f hands back results res (indices into its result list) that are, in that order, the results src of one call of
-// the named callee: (public, private) stay (public, private) on their way from ed25519.GenerateKey to the stored entity.
-func resultsInOrder(c *core.Ctx, rel, fn string, isCallee func(ssa.Instruction) bool, calleeName string, pairs [][2]int) {
-	p := c.P
-	f := p.Func(rel, fn)
-	key := "results-in-order@" + fn
-	if f == nil {
-		c.Undecided(key, token.NoPos, "not found")
-		return
-	}
-	ok, n := true, 0
-	core.Instrs(f, func(i ssa.Instruction) {
-		r, isR := i.(*ssa.Return)
-		if !isR {
-			return
-		}
-		rs := res(r)
-		for _, pr := range pairs {
-			if pr[0] >= len(rs) {
-				ok = false
-				continue
-			}
-			for _, s := range core.Sources(rs[pr[0]]) {
-				if k, isK := s.(*ssa.Const); isK && (k.IsNil() || k.Value == nil) {
-					continue
-				}
-				n++
-				e, isE := s.(*ssa.Extract)
-				if !isE {
-					// a full slice of the k-th result ( public[:] )
-					ok = false
-					continue
-				}
-				call, isC := e.Tuple.(*ssa.Call)
-				if !isC || !isCallee(call) || e.Index != pr[1] {
-					ok = false
-				}
-			}
-		}
-	})
-	c.Check(ok && n > 0, key, f.Pos(), fmt.Sprintf("hands back the results of %s in their order", calleeName),
-		fmt.Sprintf("%s does not hand back the results of %s in their order (public and private key exchanged?): the entity signs with its public key — refused as a key of the wrong size — or publishes its private one", fn, calleeName))
-}
-
-// keyPairRouting (C04, C20): ed25519.GenerateKey -> ED25519GenerateKey -> generateKeyPairs -> NewEntity(name, public, private).
+// keyPairRouting (C04, C20): the pair ed25519.GenerateKey makes reaches NewEntity(name, public, private) in that order, through
+// whatever module functions hand it on (ED25519GenerateKey, generateKeyPairs on the reference tree): (public, private) exchanged
+// anywhere on the way gives an entity that signs with a 32-byte "private" key — refused — and publishes the real one.
 func keyPairRouting(c *core.Ctx) {
 	p := c.P
-	resultsInOrder(c, "crypto", "ED25519GenerateKey", func(i ssa.Instruction) bool {
-		return core.IsCall(i, "crypto/ed25519.GenerateKey") || core.IsCall(i, "golang.org/x/crypto/ed25519.GenerateKey")
-	}, "ed25519.GenerateKey", [][2]int{{0, 0}, {1, 1}})
-	gk := p.Func("crypto", "ED25519GenerateKey")
-	resultsInOrder(c, "db", "generateKeyPairs", func(i ssa.Instruction) bool { return gk != nil && core.Callee(i) == gk }, "ED25519GenerateKey", [][2]int{{0, 0}, {1, 1}})
 	f := p.Func("db", "NewRandomEntityWithName")
-	gp := p.Func("db", "generateKeyPairs")
 	ne := p.Func("db", "NewEntity")
-	if f == nil || gp == nil || ne == nil {
+	if f == nil || ne == nil {
 		c.Undecided("key-pair-routing@NewRandomEntityWithName", token.NoPos, "not found")
 		return
+	}
+	// which result of ed25519.GenerateKey is v? (-1: neither / unknown)
+	var origin func(v ssa.Value, depth int) int
+	origin = func(v ssa.Value, depth int) int {
+		if depth > 6 {
+			return -1
+		}
+		got := -2
+		for _, s := range core.Sources(v) {
+			if k, isK := s.(*ssa.Const); isK && (k.IsNil() || k.Value == nil) {
+				continue
+			}
+			r := -1
+			if e, isE := s.(*ssa.Extract); isE {
+				if call, isC := e.Tuple.(*ssa.Call); isC {
+					g := call.Call.StaticCallee()
+					switch {
+					case g != nil && g.Pkg != nil && strings.HasSuffix(g.Pkg.Pkg.Path(), "ed25519") && g.Name() == "GenerateKey":
+						r = e.Index
+					case g != nil && core.InModule(g) && g.Blocks != nil:
+						// result e.Index of the module function: every return's operand at that position
+						r = -2
+						core.Instrs(g, func(i ssa.Instruction) {
+							ret, isR := i.(*ssa.Return)
+							if !isR || e.Index >= len(res(ret)) {
+								return
+							}
+							if core.IsNilConst(res(ret)[e.Index]) {
+								return
+							}
+							o := origin(res(ret)[e.Index], depth+1)
+							if r == -2 {
+								r = o
+							} else if r != o {
+								r = -1
+							}
+						})
+						if r == -2 {
+							r = -1
+						}
+					}
+				}
+			}
+			if got == -2 {
+				got = r
+			} else if got != r {
+				got = -1
+			}
+		}
+		if got == -2 {
+			return -1
+		}
+		return got
 	}
 	ok, n := true, 0
 	core.Instrs(f, func(i ssa.Instruction) {
@@ -175,22 +179,12 @@ func keyPairRouting(c *core.Ctx) {
 		}
 		n++
 		args := core.Args(i)
-		for k, want := range map[int]int{1: 0, 2: 1} {
-			good := core.AnySource(args[k], func(s ssa.Value) bool {
-				e, isE := s.(*ssa.Extract)
-				if !isE || e.Index != want {
-					return false
-				}
-				call, isC := e.Tuple.(*ssa.Call)
-				return isC && core.Callee(call) == gp
-			})
-			if !good {
-				ok = false
-			}
+		if len(args) != 3 || origin(args[1], 0) != 0 || origin(args[2], 0) != 1 {
+			ok = false
 		}
 	})
-	c.Check(ok && n > 0, "key-pair-routing@"+fname(f), f.Pos(), "NewEntity(name, public, private) receives the generated pair in that order",
-		"the generated key pair does not reach NewEntity as (public, private): the accessory's entity holds its keys exchanged — signing fails with a key of the wrong size, pair-setup M6 can never be produced")
+	c.Check(ok && n > 0, "key-pair-routing@"+fname(f), f.Pos(), "NewEntity(name, public, private) receives ed25519.GenerateKey's (public, private) in that order",
+		"the generated key pair does not reach NewEntity as (public, private) (exchanged on the way through the key-generation helpers?): the accessory's entity holds its keys exchanged — signing fails with a key of the wrong size, pair-setup M6 can never be produced")
 }
 
 // sessionStoredUnderConnectionKey: SetSessionForConnection stores the session under the key of the connection — Set(key, session),
@@ -342,7 +336,18 @@ func encryptedItemIsCiphertextThenTag(c *core.Ctx) {
 				return
 			}
 			n++
-			parts, ok := byteSeq(args[1])
+			item := args[1]
+			// the result variable of an inlined helper: the one value that is not the nil of its error returns
+			var nonNil []ssa.Value
+			for _, s := range core.Sources(item) {
+				if !core.IsNilConst(s) {
+					nonNil = append(nonNil, s)
+				}
+			}
+			if _, isPhi := item.(*ssa.Phi); isPhi && len(nonNil) == 1 {
+				item = nonNil[0]
+			}
+			parts, ok := byteSeq(item)
 			good := ok && len(parts) == 2
 			var seal ssa.Value
 			if good {
@@ -457,7 +462,7 @@ func tempFileInStorageDirectory(c *core.Ctx) {
 		})
 	}
 	if n == 0 {
-		c.Undecided("path-starts-at-storage-directory", token.NoPos, "no joined path in the file storage")
+		c.Note("path-starts-at-storage-directory", token.NoPos, "no method of the file storage joins a path: nothing to order")
 	}
 }
 
@@ -661,4 +666,254 @@ func decoderTagAndAppend(c *core.Ctx) {
 	if nSplit == 0 && nAppend == 0 {
 		c.Undecided("decoder-tag-and-append@"+fname(f), f.Pos(), "neither a tag split nor a list append found")
 	}
+}
+
+// endpointPlumbingPolarity (C13, C04): the two functions every pairing request passes through before and after its controller — the
+// TLV8 wrapper HandleReaderForHandler and the listener's Accept — test their errors the right way round. (Found by running the
+// classic mutation operators over the files no property names.)
+func endpointPlumbingPolarity(c *core.Ctx) {
+	p := c.P
+	n := 0
+	for _, spec := range [][2]string{{"hap/pair", "HandleReaderForHandler"}, {"hap/http", "(*Server).Accept"}} {
+		if f := p.Func(spec[0], spec[1]); f != nil {
+			n++
+			errorTestPolarity(c, f, nil)
+		}
+	}
+	// the wrapper hands back the bytes of the controller's answer exactly where there is one
+	if f := p.Func("hap/pair", "HandleReaderForHandler"); f != nil {
+		var handle ssa.Value
+		core.Instrs(f, func(i ssa.Instruction) {
+			if core.IsInvoke(i, mod+"/hap.ContainerHandler", "Handle") {
+				handle = i.(ssa.Value)
+			}
+		})
+		good := false
+		if handle != nil {
+			core.EnumPaths(f, 2, 2000, func(pa core.Path) {
+				ret := pa.Returns()
+				if ret == nil || len(res(ret)) != 2 {
+					return
+				}
+				// success path with an answer: result 0 is BytesBuffer() of the answer
+				v := pa.ResolveAt(len(pa)-1, res(ret)[0])
+				for _, s := range core.Sources(v) {
+					if call, ok := s.(*ssa.Call); ok && core.IsInvoke(call, qContainer, "BytesBuffer") {
+						if core.AnySource(call.Call.Value, func(x ssa.Value) bool {
+							e, isE := x.(*ssa.Extract)
+							return isE && e.Tuple == handle && e.Index == 0
+						}) {
+							good = true
+						}
+					}
+				}
+			})
+		}
+		c.Check(good, "wrapper-returns-the-answer@"+fname(f), f.Pos(), "a path hands back BytesBuffer() of the container the controller answered with",
+			"HandleReaderForHandler never hands back the bytes of the controller's answer: every pairing request is answered with an empty body")
+	}
+	if n == 0 {
+		c.Note("endpoint-plumbing-polarity", token.NoPos, "neither HandleReaderForHandler nor Accept exists on this tree")
+	}
+}
+
+// listenersAreKept (C20): AddListener keeps the listener it is given — the transport's only way to hear that a pairing was added or
+// removed, and with it the only way the discoverable flag follows the stored pairings while the process runs.
+func listenersAreKept(c *core.Ctx) {
+	p := c.P
+	f := p.Func("event", "(*eventEmitter).AddListener")
+	if f == nil || len(f.Params) < 2 {
+		c.Undecided("listeners-are-kept", token.NoPos, "(*eventEmitter).AddListener not found")
+		return
+	}
+	ok := false
+	core.Instrs(f, func(i ssa.Instruction) {
+		st, isSt := i.(*ssa.Store)
+		if !isSt {
+			return
+		}
+		if _, isF := st.Addr.(*ssa.FieldAddr); !isF {
+			return
+		}
+		for _, s := range core.Sources(st.Val) {
+			call, isC := s.(*ssa.Call)
+			if !isC {
+				continue
+			}
+			if b, isB := call.Call.Value.(*ssa.Builtin); isB && b.Name() == "append" && len(call.Call.Args) == 2 {
+				if parts, okp := byteSeqLike(call.Call.Args[1]); okp {
+					for _, pt := range parts {
+						if valIs(pt, f.Params[1]) {
+							ok = true
+						}
+					}
+				}
+			}
+		}
+	})
+	c.Check(ok, "listeners-are-kept@"+fname(f), f.Pos(), "AddListener appends its argument to the emitter's list",
+		"AddListener does not keep the listener: pairing events reach nobody, the discoverable flag no longer follows the stored pairings")
+}
+
+// byteSeqLike: the elements of a variadic argument list ( append(list, a, b) ).
+func byteSeqLike(v ssa.Value) ([]ssa.Value, bool) {
+	sl, ok := v.(*ssa.Slice)
+	if !ok {
+		return nil, false
+	}
+	a, ok := sl.X.(*ssa.Alloc)
+	if !ok {
+		return nil, false
+	}
+	var out []ssa.Value
+	for _, r := range *a.Referrers() {
+		if ia, ok := r.(*ssa.IndexAddr); ok {
+			for _, rr := range *ia.Referrers() {
+				if st, ok := rr.(*ssa.Store); ok && st.Addr == ssa.Value(ia) {
+					out = append(out, st.Val)
+				}
+			}
+		}
+	}
+	return out, len(out) > 0
+}
+
+// accessoryServicesAdded (C15: "every constructor … returns a usable object"): an accessory constructor that makes a service and keeps
+// it in a field also adds it to the accessory — a service that only sits in the field is not in Services, gets no ids and is not
+// published.
+func accessoryServicesAdded(c *core.Ctx) {
+	p := c.P
+	n := 0
+	for _, f := range libFuncs(p) {
+		if f.Pkg == nil || f.Pkg.Pkg.Path() != mod+"/accessory" || !strings.HasPrefix(f.Name(), "New") || f.Parent() != nil {
+			continue
+		}
+		// fields that receive a fresh service
+		type made struct {
+			base ssa.Value
+			path string
+			at   ssa.Instruction
+		}
+		var mades []made
+		core.Instrs(f, func(i ssa.Instruction) {
+			st, ok := i.(*ssa.Store)
+			if !ok {
+				return
+			}
+			call, ok := st.Val.(*ssa.Call)
+			if !ok {
+				return
+			}
+			g := call.Call.StaticCallee()
+			if g == nil || g.Pkg == nil || g.Pkg.Pkg.Path() != mod+"/service" || !strings.HasPrefix(g.Name(), "New") {
+				return
+			}
+			b, pth := accessPath(st.Addr)
+			mades = append(mades, made{b, strings.Join(pth, "."), i})
+		})
+		if len(mades) == 0 {
+			continue
+		}
+		added := map[string]bool{}
+		core.Instrs(f, func(i ssa.Instruction) {
+			g := core.Callee(i)
+			if g == nil || cn(g) != "AddService" {
+				return
+			}
+			_, pth := accessPath(core.Args(i)[0])
+			// acc.Switch.Service -> "Switch"
+			for k := len(pth); k > 0; k-- {
+				added[strings.Join(pth[:k], ".")] = true
+			}
+		})
+		for _, m := range mades {
+			n++
+			if why, ok := serviceNotAddedOnPurpose[f.Name()+":"+m.path]; ok {
+				c.Note("service-added@"+fname(f)+":"+m.path, posOf(m.at), "not added, on purpose: "+why)
+				continue
+			}
+			c.Check(added[m.path], "service-added@"+fname(f)+":"+m.path, posOf(m.at), "the service made for ."+m.path+" is added to the accessory",
+				"the constructor makes a service, keeps it in ."+m.path+" and never adds it to the accessory: it is not among the accessory's services — no ids, not published, its characteristics unreachable")
+		}
+	}
+	if n == 0 {
+		c.Undecided("service-added", token.NoPos, "no accessory constructor makes a service")
+	}
+}
+
+// serviceNotAddedOnPurpose: one line of reason per exception.
+var serviceNotAddedOnPurpose = map[string]string{
+	"NewCamera:StreamManagement2": "upstream keeps the second RTP stream management service in its field but leaves its AddService commented out under a TODO (one stream is published); the object is usable as it is — looked at and dismissed in the third hunt",
+}
+
+// pinFormatted (C02, C04, C20): what ValidatePin hands back on success — and what the SRP verifier is then computed from — is the
+// given code written XXX-XX-XXX, nothing more and nothing less: the controller derives its proof from exactly that string.
+func pinFormatted(c *core.Ctx) {
+	p := c.P
+	f := p.Func("", "ValidatePin")
+	if f == nil || len(f.Params) < 1 {
+		c.Undecided("pin-formatted", token.NoPos, "ValidatePin not found")
+		return
+	}
+	ok, n := true, 0
+	core.EnumPaths(f, 2, 5000, func(pa core.Path) {
+		ret := pa.Returns()
+		if ret == nil || len(res(ret)) != 2 || !core.IsNilConst(pa.ResolveAt(len(pa)-1, res(ret)[1])) {
+			return
+		}
+		n++
+		v := pa.ResolveAt(len(pa)-1, res(ret)[0])
+		// a chain of string concatenations: piece "-" piece "-" piece
+		var parts []ssa.Value
+		var flat func(x ssa.Value)
+		flat = func(x ssa.Value) {
+			if bo, isB := x.(*ssa.BinOp); isB && bo.Op == token.ADD {
+				flat(bo.X)
+				flat(bo.Y)
+				return
+			}
+			parts = append(parts, x)
+		}
+		flat(v)
+		if len(parts) != 5 {
+			ok = false
+			return
+		}
+		for k, pt := range parts {
+			if k%2 == 1 {
+				if s, isK := core.ConstString(pt); !isK || s != "-" {
+					ok = false
+				}
+				continue
+			}
+			// a piece: a slice (of the runes / bytes / string of the pin) with the bounds 0:3, 3:5, 5:
+			want := [][2]int64{{0, 3}, {3, 5}, {5, -1}}[k/2]
+			sl, isSl := core.StripConv(pt).(*ssa.Slice)
+			if !isSl {
+				ok = false
+				continue
+			}
+			lo, hi := int64(0), int64(-1)
+			if sl.Low != nil {
+				lo, _ = core.ConstInt(sl.Low)
+			}
+			if sl.High != nil {
+				hi, _ = core.ConstInt(sl.High)
+			}
+			if lo != want[0] || hi != want[1] {
+				ok = false
+			}
+			fromPin := false
+			walkOperands(sl.X, 6, func(x ssa.Value) {
+				if x == ssa.Value(f.Params[0]) {
+					fromPin = true
+				}
+			})
+			if !fromPin {
+				ok = false
+			}
+		}
+	})
+	c.Check(ok && n > 0, "pin-formatted@"+fname(f), f.Pos(), "on success ValidatePin hands back pin[0:3] - pin[3:5] - pin[5:]",
+		"what ValidatePin hands back on success is not the given code written XXX-XX-XXX: the verifier is computed from another string than the one the controller's user types — a controller with the right setup code cannot pair")
 }
